@@ -117,6 +117,14 @@ MUTATIONS = [
     ("tlexport/quic/quic_session.py", '            if self.tls_session.client_random is not None and self.tls_session.ciphersuite is not None:', '            if self.tls_session.client_random is not None or self.tls_session.ciphersuite is not None:', 'handle_crypto_frame: key derivation with one of client random / suite missing'),
     ("tlexport/quic/quic_session.py", '            self.set_initial_decryptor(dcid, False)', '            self.set_initial_decryptor(dcid, True)', 'QuicSession.handle_packet: Initial keys derived for ChaCha20'),
     ("tlexport/quic/quic_session.py", '        if self.quic_version == QuicVersion.UNKNOWN:\n            self.quic_version = quic_version', '        if self.quic_version != QuicVersion.UNKNOWN:\n            self.quic_version = quic_version', 'QuicSession.handle_packet: version latch inverted'),
+    # group Main2: main.py
+    ("tlexport/main.py", '        if session.matches_session(packet):\n            session.handle_packet(packet)\n            return\n', '        if session.matches_session(packet):\n            session.handle_packet(packet)\n', 'main.handle_packet: every matching session gets the packet'),
+    ("tlexport/main.py", '    if packet.dport in server_ports or packet.sport in server_ports:\n        sessions.append(', '    if packet.dport in server_ports and packet.sport in server_ports:\n        sessions.append(', 'main.handle_packet: new session only when both ports are server ports'),
+    ("tlexport/main.py", '        sessions.append(Session(packet, server_ports, keylog, portmap, keep_original_ports, exp_meta))', '        sessions.insert(0, Session(packet, server_ports, keylog, portmap, keep_original_ports, exp_meta))', 'main.handle_packet: new session put first'),
+    ("tlexport/main.py", '    for session in sessions:\n        all_decrypted_sessions.extend(session.decrypt())\n    for quic_session in quic_sessions:\n        all_decrypted_sessions.extend(quic_session.build_output(metadata))', '    for quic_session in quic_sessions:\n        all_decrypted_sessions.extend(quic_session.build_output(metadata))\n    for session in sessions:\n        all_decrypted_sessions.extend(session.decrypt())', 'main.collect: QUIC sessions exported before the TLS sessions'),
+    ("tlexport/main.py", '        all_decrypted_sessions.extend(quic_session.build_output(metadata))', '        all_decrypted_sessions.extend(quic_session.build_output(False))', 'main.collect: metadata flag not passed on'),
+    ("tlexport/main.py", '        if ts == -1:\n            keylog.extend(', '        if ts == 0:\n            keylog.extend(', 'main.run_dsb: secrets block recognised by ts == 0'),
+    ("tlexport/main.py", '    if args.sslkeylog is not None:\n', '    if args.sslkeylog is None:\n', 'main.run_keylog_file: key-log file read when absent'),
     # group QuicTls: quic_tls_parser.py
     ("tlexport/quic/quic_tls_parser.py", "            if p_type == 0x2ab2:", "            if p_type == 0x2ab3:", "get_quic_transport_parameters: grease_quic_bit under the wrong id"),
     ("tlexport/quic/quic_tls_parser.py", "            extension_body = extension_body[index + parameter_length:]", "            extension_body = extension_body[index + parameter_length + 1:]", "get_quic_transport_parameters: a byte skipped after each parameter"),
@@ -214,6 +222,7 @@ MUTATIONS = [
 
 # behaviour-preserving rewrites: (file, [(old, new)…], what)
 REWRITES = [
+    ("tlexport/main.py", [('    if packet.dport in server_ports or packet.sport in server_ports:\n        sessions.append(', '    if packet.sport in server_ports or packet.dport in server_ports:\n        sessions.append(')], 'main.handle_packet: port tests swapped'),
     ("tlexport/quic/quic_session.py", [('                if isserver:\n                    self.server_cids.add(frame.connection_id)\n                else:\n                    self.client_cids.add(frame.connection_id)', '                if not isserver:\n                    self.client_cids.add(frame.connection_id)\n                else:\n                    self.server_cids.add(frame.connection_id)')], 'handle_frame: NEW_CONNECTION_ID branches swapped under `not`'),
     ("tlexport/quic/quic_session.py", [('                    case QuicPacketType.HANDSHAKE | QuicPacketType.RTT_O:', '                    case QuicPacketType.RTT_O | QuicPacketType.HANDSHAKE:')], 'decrypt_packet: `HANDSHAKE | RTT_O` written `RTT_O | HANDSHAKE`'),
     ("tlexport/quic/quic_dissector.py", [("                pn_offset = 1 + len(guessed_dcid)\n                sample_offset = pn_offset + 4\n                sample = datagram_data[sample_offset:sample_offset + 16]\n",
@@ -285,6 +294,8 @@ def group_of(what):
     if fn in ("Dec.byte_xor", "get_cipher_type", "update_keys", "decrypt_tls13_aead", "decrypt_tls13_stream_cipher", "decrypt_tls12_aead",
               "decrypt_tls12_chacha20", "Decryptor.decrypt"):
         return ["Decrypt"]
+    if fn.startswith("main."):
+        return ["Main2"]
     if fn in ("decrypt_packet", "handle_frame", "QuicSession.handle_quic_packet", "handle_crypto_frame", "QuicSession.handle_packet"):
         return ["QuicSess2"]
     if fn in ("get_quic_transport_parameters", "get_extensions", "handle_client_hello", "handle_server_hello", "handle_encrypted_extensions", "handle_record"):
